@@ -276,3 +276,49 @@ Proof.
   rewrite E, filter_app, (filter_all _ e); [auto|].
   eapply Forall_impl; [|exact He]. intros p Hp. destruct Hp as [Hp _]. rewrite Hp. reflexivity.
 Qed.
+
+(* ---------- listed genomes are found by the lookups, in every reachable state ---------- *)
+(* what Taxonomy accepts: leaf names pairwise different, internal names pairwise different *)
+Definition kind_names_inj (t : stree) : Prop :=
+  forall p q, valid t p = true -> valid t q = true -> is_leaf t p = is_leaf t q -> tax_name t p = tax_name t q -> p = q.
+
+Lemma first_named_found t l p :
+  (forall q, In q l -> tax_name t q = tax_name t p -> q = p) -> In p l -> first_named t (tax_name t p) l = Ok p.
+Proof.
+  intros Hu Hin. unfold first_named.
+  assert (Hp : In p (filter (fun q => String.eqb (tax_name t q) (tax_name t p)) l))
+    by (apply filter_In; split; [exact Hin|apply String.eqb_refl]).
+  destruct (filter (fun q => String.eqb (tax_name t q) (tax_name t p)) l) as [|q r] eqn:Ef; [contradiction|].
+  assert (Hq : In q (filter (fun q => String.eqb (tax_name t q) (tax_name t p)) l)) by (rewrite Ef; left; reflexivity).
+  apply filter_In in Hq as [Hq1 Hq2]. apply String.eqb_eq in Hq2. rewrite (Hu q Hq1 Hq2). reflexivity.
+Qed.
+
+Theorem listed_genomes_found t s :
+  kind_names_inj t -> Forall (fun q => valid t q = true) (ss_genomes s) ->
+  (forall p, In p (ancestral_listing t s) -> s_anc_by_taxon t s p = Ok p /\ s_anc_by_name t s (tax_name t p) = Ok p) /\
+  (forall p, In p (extant_listing t s) -> s_ext_by_name t s (tax_name t p) = Ok p).
+Proof.
+  intros Hinj Hv. rewrite Forall_forall in Hv. split.
+  - intros p Hp. pose proof Hp as Hp'. unfold ancestral_listing in Hp. apply filter_In in Hp as [Hin Hl]. split.
+    + unfold s_anc_by_taxon. rewrite Hl. rewrite (proj2 (mem_tax_in p (ss_genomes s)) Hin). reflexivity.
+    + apply first_named_found; [|exact Hp']. intros q Hq En. unfold ancestral_listing in Hq. apply filter_In in Hq as [Hq Hlq].
+      apply Hinj; auto. apply negb_true_iff in Hl, Hlq. congruence.
+  - intros p Hp. pose proof Hp as Hp'. unfold extant_listing in Hp. apply filter_In in Hp as [Hin Hl].
+    apply first_named_found; [|exact Hp']. intros q Hq En. unfold extant_listing in Hq. apply filter_In in Hq as [Hq Hlq].
+    apply Hinj; auto. congruence.
+Qed.
+
+Lemma srun_valid t fo ops s :
+  Forall (fun p => valid t p = true) (ss_genomes s) -> args_ok (ss_genomes s) ops ->
+  Forall (fun p => valid t p = true) (ss_genomes (srun t fo ops s)).
+Proof.
+  intros Hv Ha. destruct (srun_genome_shape t fo ops s Hv Ha) as (e & E & He). rewrite E. apply Forall_app. split; [exact Hv|].
+  eapply Forall_impl; [|exact He]. intros p Hp. apply Hp.
+Qed.
+
+Theorem listed_genomes_found_after_history t fo ops s0 :
+  kind_names_inj t -> Forall (fun q => valid t q = true) (ss_genomes s0) -> args_ok (ss_genomes s0) ops ->
+  let s := srun t fo ops s0 in
+  (forall p, In p (ancestral_listing t s) -> s_anc_by_taxon t s p = Ok p /\ s_anc_by_name t s (tax_name t p) = Ok p) /\
+  (forall p, In p (extant_listing t s) -> s_ext_by_name t s (tax_name t p) = Ok p).
+Proof. intros Hinj Hv Ha s. apply listed_genomes_found; [exact Hinj|]. apply srun_valid; assumption. Qed.
